@@ -56,6 +56,10 @@ class ModelLog:
         self.env = None
         self.receives = []          # (time, dev_id, part, ct_read, dispatch_serial)
         self.receive_units = []     # aligned with receives: the direct members of the received batch (or [part])
+        self.receive_views = []     # aligned with receives: what the callback could read at that moment
+        self.hook_views = []        # (serial, device id, tag, {maintainer id: value}) read inside start_work
+        self.gen_views = []         # (source id, k, produced_parts, value, cost_of_produced_parts, records) read inside the generator hook
+        self.maint_objs = {}        # maintainer id -> object (for hook_views)
         self.finishes = []          # (time, dev_id, part)
         self.shutdowns = []         # (time, dev_id, idx, is_failure, lost_part)
         self.restores = []          # (time, dev_id, idx)
@@ -90,6 +94,27 @@ class ReceiveCb:
         lg = self.log
         lg.receives.append((lg.now(), self.dev_id, part, dev.cycle_time, lg.serial(), leaves_of(part), part.value))
         lg.receive_units.append(units_of(part))
+        # what a receive callback can see through the public API at this moment (judged by the routing and buffer
+        # monitors): the part's routing history already ends with this device; a buffer already counts the part
+        view = {}
+        try:
+            h = part.routing_history
+            view['hist_last_is_dev'] = bool(h) and h[-1] is dev
+            view['hist_names'] = [getattr(x, 'name', '?') for x in h[-3:]]
+        except Exception as e:              # (an internal renamed by a refactoring: not judged)
+            view['hist_error'] = repr(e)
+        if hasattr(dev, 'level') and hasattr(dev, 'stored_parts'):
+            try:
+                stored = list(dev.stored_parts)
+                cnt = lambda x: len(x.parts) if getattr(x, 'parts', None) is not None else 1
+                view['level'] = dev.level()
+                view['stored'] = sum(cnt(x) for x in stored)
+                view['part_in_stored'] = any(x is part for x in stored)
+                view['part_count'] = cnt(part)
+                view['hand_made'] = any(':ins' in str(getattr(u, 'huid', '')) for u in units_of(part))
+            except Exception as e:
+                view['level_error'] = repr(e)
+        lg.receive_views.append(view)
 
 
 class FinishCb:
@@ -629,6 +654,10 @@ class HProc(PartProcessor):
     def start_work(self, tag):
         if not instrument.PROBING:
             self.h_log.hooks.append((self.h_log.now(), self.h_id, 'start', tag, self.h_log.serial()))
+            # the books as the target's hook can read them: the order that is starting has been charged
+            mo = getattr(self.h_log, 'maint_objs', None)
+            if isinstance(mo, dict):
+                self.h_log.hook_views.append((self.h_log.serial(), self.h_id, tag, {k: v.value for k, v in mo.items()}))
         super().start_work(tag)
 
     def end_work(self, tag):
@@ -706,6 +735,21 @@ class HGen(PartGenerator):
         return p
 
     def generate_part_helper(self, part_name, n):
+        src = getattr(self, 'h_source', None)
+        if src is not None and not instrument.PROBING and getattr(src, 'env', None) is not None:
+            # the Source's books as its generator hook can read them while making part n
+            try:
+                recs = src.env.simulation_data.get('supplied_new_part', {}).get(src.name, [])
+                self.log.gen_views.append((self.src_id, n, src.produced_parts, src.value, src.cost_of_produced_parts,
+                                           len(recs), recs[-1][1] if recs else None,
+                                           getattr(self, 'h_prev_top_id', None)))
+            except Exception:
+                pass
+        top = self._make_part(part_name, n)
+        self.h_prev_top_id = getattr(top, 'id', None)
+        return top
+
+    def _make_part(self, part_name, n):
         if self.batch_sizes:
             size = self.batch_sizes[(n - 1) % len(self.batch_sizes)]
             parts = [self._leaf(f'{part_name}.{k}', n, k, n + k) for k in range(size)]
@@ -854,7 +898,9 @@ def build(spec, bus=None, script=True, system=None, known=None):
             kw = {}
             if it.get('budget') is not None:
                 kw['starting_parts'] = it['budget']
+            gen.h_source = None
             d = Source(name=nm, part_generator=gen, cycle_time=it['ct'], **kw)
+            gen.h_source = d
         elif k == 'handler':
             d = (HLenHandler if it.get('len_dev') else PartHandler)(name=nm, upstream=ups, cycle_time=it['ct'],
                                                                     value=it.get('value', 0))
@@ -927,6 +973,7 @@ def build(spec, bus=None, script=True, system=None, known=None):
             if it.get('cap') is not None:
                 kw['capacity'] = it['cap']
             d = Maintainer(name=i, value=it.get('value', 0), **kw)
+            log.maint_objs[i] = d
         elif k == 'scheduler':
             from simprocesd.model.factory_floor import ActionScheduler
             kw = {}
